@@ -15,12 +15,21 @@ class AnalysisError(Exception):
     budget exhausted).  Reported as ANALYSIS-ERROR, exit 2 - never a pass."""
 
 
-class ImportRaises(AnalysisError):
-    """Abstract import found that a module's top-level statement raises on every path: the package cannot be
-    imported.  A decided fact about the code, reported as a violation by every check (rule IMPORT)."""
-    def __init__(self, msg, exc=None, site=None):
+class Decided(AnalysisError):
+    """Not a limit of the analysis but a decided fact that ends it: a step every property depends on fails on
+    every evaluated path (the package cannot be imported; start() of a fresh instance always raises).  Reported
+    as a violation (rule, instance) by whichever check met it."""
+    def __init__(self, rule, instance, msg, site=None, applies=None):
         AnalysisError.__init__(self, msg)
-        self.exc, self.site = exc, site
+        self.rule, self.instance, self.site = rule, instance, site
+        self.applies = applies      # the properties it violates (None: all); for the others it is "no verdict"
+
+
+class ImportRaises(Decided):
+    """Abstract import found that a module's top-level statement raises on every path."""
+    def __init__(self, msg, exc=None, site=None):
+        Decided.__init__(self, "IMPORT", "import spake2", "the package cannot be imported - " + msg, site)
+        self.exc = exc
 
 
 def repo_root():
